@@ -22,16 +22,67 @@ static int64_t dl_of[NN];         /* creation deadline offset, or -1 = none */
 #define FREED(i) (50 + (i))
 static int64_t ts_ns (nsync_time t) { return (int64_t) t.tv_sec * 1000000000LL + t.tv_nsec; }
 
+/* ---- announcements for the lock-step replay (NoteModel): "call <tid> <op> <note index> [<parent index>] [<deadline ns|none>]", "ret <tid> <value>".
+   Note indices are allocation order (= the model's note ids). ---- */
+static void fmt_time (char *b, size_t n, nsync_time t) {
+	if (nsync_time_cmp (t, nsync_time_no_deadline) == 0) snprintf (b, n, "none");
+	else snprintf (b, n, "%lld", (long long) ts_ns (t));
+}
+static int x_is_notified (int i) {
+	int v;
+	vrt_note ("call %d isn %d", vrt_self (), i);
+	v = nsync_note_is_notified (note[i]);
+	vrt_note ("ret %d %d", vrt_self (), v);
+	return v;
+}
+static void x_notify (int i) {
+	vrt_note ("call %d notify %d", vrt_self (), i);
+	nsync_note_notify (note[i]);
+	vrt_note ("ret %d -", vrt_self ());
+}
+static int x_wait (int i, nsync_time dl) {
+	char b[32];
+	int v;
+	fmt_time (b, sizeof (b), dl);
+	vrt_note ("call %d wait %d %s", vrt_self (), i, b);
+	v = nsync_note_wait (note[i], dl);
+	vrt_note ("ret %d %d", vrt_self (), v);
+	return v;
+}
+static nsync_note x_new (int par, nsync_time dl) {
+	char b[32];
+	nsync_note n;
+	fmt_time (b, sizeof (b), dl);
+	vrt_note ("call %d new %d %s", vrt_self (), par, b);
+	n = nsync_note_new (par < 0 ? NULL : note[par], dl);
+	vrt_note ("ret %d %d", vrt_self (), n != NULL);
+	return n;
+}
+static nsync_time x_expiry (int i) {
+	char b[32];
+	nsync_time e;
+	vrt_note ("call %d expiry %d", vrt_self (), i);
+	e = nsync_note_expiry (note[i]);
+	fmt_time (b, sizeof (b), e);
+	vrt_note ("ret %d %s", vrt_self (), b);
+	return e;
+}
+static void x_free (int i) {
+	vrt_note ("call %d free %d", vrt_self (), i);
+	nsync_note_free (note[i]);
+	vrt_note ("ret %d -", vrt_self ());
+}
+
 static void observe (int i) {
 	long seen_before = vrt_sh_get (SEEN (i));   /* only observations that COMPLETED before this call started bind it */
-	int v = nsync_note_is_notified (note[i]);
+	int v = x_is_notified (i);
 	if (v) vrt_sh_set (SEEN (i), 1);
 	else if (seen_before) vrt_fail ("C08", "note %d was observed notified and is now observed un-notified", i);
 }
 static void do_notify (int i) {
 	vrt_sh_set (NSTART (i), 1);
-	nsync_note_notify (note[i]);
-	if (!nsync_note_is_notified (note[i])) vrt_fail ("C08", "nsync_note_notify returned but note %d is not notified", i);
+	x_notify (i);
+	if (!x_is_notified (i)) vrt_fail ("C08", "nsync_note_notify returned but note %d is not notified", i);
 	vrt_sh_set (SEEN (i), 1);
 	vrt_count ("notify");
 }
@@ -39,8 +90,8 @@ static void do_wait (int i, int timed) {
 	nsync_time dl = nsync_time_no_deadline;
 	int r;
 	if (timed) dl = vrt_abs ((int64_t) vrt_rand (5) * 900 - 900);
-	r = nsync_note_wait (note[i], dl);
-	if (r) { vrt_sh_set (SEEN (i), 1); vrt_count ("wait_notified"); if (!nsync_note_is_notified (note[i])) vrt_fail ("C08", "wait said notified, poll says not"); }
+	r = x_wait (i, dl);
+	if (r) { vrt_sh_set (SEEN (i), 1); vrt_count ("wait_notified"); if (!x_is_notified (i)) vrt_fail ("C08", "wait said notified, poll says not"); }
 	else {
 		vrt_count ("wait_timeout");
 		if (!timed) vrt_fail ("C08", "wait without deadline returned 0");
@@ -50,11 +101,11 @@ static void do_wait (int i, int timed) {
 static void t_notify (void *a) { do_notify ((int) (long) a); }
 static void t_poll (void *a) { int i = (int) (long) a, k; for (k = 0; k < 3; k++) { observe (i); vrt_point ("poll"); } }
 static void t_wait (void *a) { int i = (int) (long) a; do_wait (i & 7, i >> 3); }
-static void t_free (void *a) { int i = (int) (long) a; nsync_note_free (note[i]); vrt_sh_set (FREED (i), 1); vrt_count ("free"); }
+static void t_free (void *a) { int i = (int) (long) a; x_free (i); vrt_sh_set (FREED (i), 1); vrt_count ("free"); }
 static void t_newchild (void *a) {
 	int par = (int) (long) a;
 	nsync_time dl = vrt_rand (2) ? nsync_time_no_deadline : vrt_abs (3000);
-	note[NEWC] = nsync_note_new (note[par], dl);
+	note[NEWC] = x_new (par, dl);
 	parent_of[NEWC] = par;
 	observe (NEWC);
 	vrt_count ("newchild");
@@ -72,19 +123,19 @@ int main (void) {
 	/* build P -> C -> G, P -> S and check expiry = min over the creation path */
 	for (i = 0; i < 4; i++) {
 		d[i] = (fam == 2 && i == P) ? vrt_abs (800) : (fam == 1 ? nsync_time_no_deadline : mk_dl (i));
-		note[i] = nsync_note_new (parent_of[i] < 0 ? NULL : note[parent_of[i]], d[i]);
+		note[i] = x_new (parent_of[i], d[i]);
 		e = d[i];
 		if (parent_of[i] >= 0) {
-			nsync_time pe = nsync_note_expiry (note[parent_of[i]]);
+			nsync_time pe = x_expiry (parent_of[i]);
 			if (nsync_time_cmp (pe, e) < 0) e = pe;
-			if (nsync_note_is_notified (note[parent_of[i]]) && nsync_time_cmp (d[i], nsync_time_zero) > 0 &&
-			    nsync_time_cmp (nsync_note_expiry (note[i]), d[i]) != 0 &&
-			    nsync_time_cmp (nsync_note_expiry (note[i]), nsync_time_zero) != 0) {
+			if (x_is_notified (parent_of[i]) && nsync_time_cmp (d[i], nsync_time_zero) > 0 &&
+			    nsync_time_cmp (x_expiry (i), d[i]) != 0 &&
+			    nsync_time_cmp (x_expiry (i), nsync_time_zero) != 0) {
 				vrt_fail ("C08", "expiry of a child created under a notified parent is neither its own deadline nor zero");
 			}
 		}
-		if (!(parent_of[i] >= 0 && nsync_note_is_notified (note[parent_of[i]])) &&
-		    nsync_time_cmp (nsync_note_expiry (note[i]), e) != 0) {
+		if (!(parent_of[i] >= 0 && x_is_notified (parent_of[i])) &&
+		    nsync_time_cmp (x_expiry (i), e) != 0) {
 			vrt_fail ("C08", "nsync_note_expiry of note %d is not the minimum of the deadlines on its path to the root", i);
 		}
 	}
@@ -119,10 +170,10 @@ int main (void) {
 		/* descendants of a note whose nsync_note_notify has returned are notified (adopted grandchildren included) */
 		for (j = parent_of[i]; j >= 0; j = parent_of[j]) {
 			if (vrt_sh_get (NSTART (j)) && i != NEWC) {
-				if (!nsync_note_is_notified (note[i])) vrt_fail ("C08", "note %d is a descendant of note %d whose notify has returned, but it is not notified", i, j);
+				if (!x_is_notified (i)) vrt_fail ("C08", "note %d is a descendant of note %d whose notify has returned, but it is not notified", i, j);
 			}
 		}
-		if (nsync_note_is_notified (note[i]) && !cause) vrt_fail ("C08", "note %d is notified although neither it nor an ancestor was notified or had a deadline", i);
+		if (x_is_notified (i) && !cause) vrt_fail ("C08", "note %d is notified although neither it nor an ancestor was notified or had a deadline", i);
 	}
 	printf ("VRT-END ok\n");
 	return 0;
